@@ -54,6 +54,16 @@ TraceBand ==
                   r.fnr_ci[j][1] <= r.fnr_ci[j][2] /\ r.fpr_ci[j][1] <= r.fpr_ci[j][2]>>,
              <<"C16.bands_within_unit_interval", ~lens \/ ~r.nan_free \/ e.fn # "roc_with_ci" \/ \A j \in 1..n :
                   /\ 0 <= r.fnr_ci[j][1] /\ r.fnr_ci[j][2] <= FS /\ 0 <= r.fpr_ci[j][1] /\ r.fpr_ci[j][2] <= FS>>,
+             (* beyond the listed property: the derived interval views of a curve are the mirrored       *)
+             (* complements / aliases of its FNR / FPR bands                                             *)
+             <<"EXT.interval_views_are_complements_and_aliases", ~lens \/ ~r.nan_free \/
+                  LET V == r.views_ci
+                      mirror(b, w) == Len(w) = n /\ \A j \in 1..n :
+                          Close(w[j][1], FS - b[j][2], 1) /\ Close(w[j][2], FS - b[j][1], 1)
+                      alias(b, w) == Len(w) = n /\ \A j \in 1..n : w[j][1] = b[j][1] /\ w[j][2] = b[j][2]
+                  IN /\ mirror(r.fnr_ci, V.tpr_ci) /\ mirror(r.fpr_ci, V.tnr_ci)
+                     /\ alias(r.fnr_ci, V.frr_ci) /\ alias(r.fpr_ci, V.far_ci)
+                     /\ alias(V.tpr_ci, V.tar_ci) /\ alias(V.tnr_ci, V.trr_ci)>>,
              <<"C16.identity_sampler_closed_form", ~lens \/ ~r.nan_free \/ e.fn # "roc_with_ci" \/ ~e.identity \/
                   Len(r.u) # n \/ Len(r.w) # n \/
                   \A j \in 1..n : near(Band(r.fnr_ci)[j], cf.fnr[j]) /\ near(Band(r.fpr_ci)[j], cf.fpr[j])>>}),
